@@ -63,7 +63,8 @@ Print Assumptions C01_roundtrip_S4.
 Theorem C01_roundtrip_pump_S4 : forall cfg c u ok ign n cls o,
   conv_roundtrips c u ok -> nodefault_free cfg = true ->
   wf_model u cls = true -> fits c u ok py_isspace n cls o = true ->
-  noq o = true ->                           (* `pump` binds no prefixes: no QName values *)
+  noq o = true ->                           (* `pump` binds no prefixes: no QName values, *)
+  exact_classes u n cls o = true ->         (* no xsi:type (every nested instance of its field's declared class) *)
   exists evs,
     EventGen.generate ign c u o = EventGen.Ok evs
     /\ Parser.parse cfg c u (Some cls) (pump (itree_of_events (map (of_wevent c) evs))) = Parser.Ok o [].
@@ -78,7 +79,7 @@ Print Assumptions C01_roundtrip_pump_S4.
    Every document tree that says the expected tree, also after indentation, is parsed back: *)
 Theorem C01_document_parses_S4 : forall cfg c u ok ign n cls o t' m k,
   conv_roundtrips c u ok -> nodefault_free cfg = true ->
-  wf_model u cls = true -> fits c u ok py_isspace n cls o = true -> noq o = true ->
+  wf_model u cls = true -> fits c u ok py_isspace n cls o = true -> noq o = true -> exact_classes u n cls o = true ->
   wf_doc t' = true -> doc_says (eobj c u ign n None o) (strip_indent t') = true ->
   Parser.parse_n k cfg c u (Some cls) (pump_doc m t' None) = Parser.Ok o [].
 Proof. intros. eapply document_parses; try eassumption. reflexivity. Qed.
@@ -91,7 +92,7 @@ Print Assumptions C01_document_parses_S4.
    the statement quantifies over) *)
 Theorem C01_roundtrip_native_S4 : forall cfg c u ok ign n cls o wcfg user,
   conv_roundtrips c u ok -> nodefault_free cfg = true ->
-  wf_model u cls = true -> fits c u ok py_isspace n cls o = true -> noq o = true ->
+  wf_model u cls = true -> fits c u ok py_isspace n cls o = true -> noq o = true -> exact_classes u n cls o = true ->
   cfg_schema_location wcfg = None -> cfg_no_ns_schema_location wcfg = None ->
   exists evs,
     EventGen.generate ign c u o = EventGen.Ok evs
@@ -107,7 +108,7 @@ Print Assumptions C01_roundtrip_native_S4.
 (* LxmlEventWriter: the same for the tree the lxml sink builds *)
 Theorem C01_roundtrip_lxml_S4 : forall cfg c u ok ign n cls o wcfg user,
   conv_roundtrips c u ok -> nodefault_free cfg = true ->
-  wf_model u cls = true -> fits c u ok py_isspace n cls o = true -> noq o = true ->
+  wf_model u cls = true -> fits c u ok py_isspace n cls o = true -> noq o = true -> exact_classes u n cls o = true ->
   cfg_schema_location wcfg = None -> cfg_no_ns_schema_location wcfg = None ->
   exists evs,
     EventGen.generate ign c u o = EventGen.Ok evs
